@@ -94,7 +94,7 @@ CLAIMED = {
    technique=T, design="§4 C04"),
  "C05": dict(
    text="Lean proof over M-Resolve that an undefined reference (type, comdat, global entity, metadata ID, local, label) or a duplicated definition makes translation fail for "
-        "every visiting order, that the undefined attribute group is accepted, and that the only outcomes are module or error. Tied by single-point fault injection on "
+        "every visiting order, that a blockaddress whose function or label is undefined (in a global, a metadata field, a body or a module-level uselistorder) is an error, that the undefined attribute group is accepted, and that the only outcomes are module or error. Tied by single-point fault injection on "
         "generated modules (text and skeleton mutated together): model and parser must agree and the oracle demands error, never ok or panic. One panic on the unchanged "
         "tree (typed attribute on an undefined type) is a recorded finding; the alias-to-undefined-type panic was repaired by a fix commit.",
    note="Lean kernel + propext/Quot.sound; M-Resolve hand-written; fault injector in vlib/modgen.py trusted.", technique=T, design="§4 C05"),
